@@ -76,6 +76,8 @@ func DrawStorm(t *rapid.T, nclients int) [][]OpDesc {
 		d0.Kind = 0 // filters are the hot path where caches and fast paths get added
 	case 4, 5:
 		d0.Kind = len(frameOps) - 2 // "renew": several callers building frames at once
+	case 6:
+		d0.Kind = kindIndex("equals") // all callers comparing two (possibly large) frames
 	}
 	switch rapid.IntRange(0, 3).Draw(t, "stormrecv") {
 	case 0, 1:
@@ -146,6 +148,15 @@ var frameOps = []string{
 	"apply", "apply", "filteredapply", "eval", "eval", "rownums", "distinct", "groupby", "groupby",
 	"tocsv", "tojson", "string", "equals", "misc", "view", "view", "aggregate-direct",
 	"tojson", "tojson-fault", "tocsv-fault", "renew", "bad-filter",
+}
+
+func kindIndex(kind string) int {
+	for i, k := range frameOps {
+		if k == kind {
+			return i
+		}
+	}
+	return 0
 }
 
 func pick(d OpDesc, i int) int { return d.N[i%len(d.N)] }
@@ -343,7 +354,7 @@ func clause(m *Member, d OpDesc, o, depth int) (qframe.FilterClause, string) {
 		return qframe.Null(), "null"
 	}
 	col := func(i int) string { return m.Names[p(i)%len(m.Names)] }
-	shape := p(0) % 11
+	shape := p(0) % 12
 	if depth >= 2 && shape >= 3 {
 		shape = 0
 	}
@@ -369,6 +380,13 @@ func clause(m *Member, d OpDesc, o, depth int) (qframe.FilterClause, string) {
 		a, da := leaf(m, col(1), d, o+2)
 		b, db := leaf(m, col(3), d, o+4)
 		return qframe.And(a, qframe.Null(), b), "and(" + da + ",null," + db + ")"
+	case 11:
+		// plain leaves on both sides of a nested clause
+		a, da := leaf(m, col(1), d, o+2)
+		b, db := leaf(m, col(3), d, o+4)
+		c, dc := leaf(m, col(5), d, o+6)
+		e, de := leaf(m, col(7), d, o+8)
+		return qframe.Or(a, qframe.And(b, c), e), "or(" + da + ",and(" + db + "," + dc + ")," + de + ")"
 	case 8:
 		a, da := leaf(m, col(1), d, o+2)
 		return qframe.Or(qframe.Null(), a), "or(null," + da + ")"
